@@ -3,10 +3,12 @@ import CalVerif.Model.Ovba
 import CalVerif.Spec.OvbaContainer
 /-! Driver for C18 (one request line → one reply line).
 
-    `dec <hex>`            → `ok <hex>` | `err:<class>` | `panic` | `fuel`        model of `decompress_stream`
+    `dec <hex>`            → `ok <hex>` | `err:<class>` | `panic:<site>` | `fuel`  model of `decompress_stream`
+    `decd <hex>`           → the same with `ok:<len>:<fnv64>` instead of the bytes
     `ser <chunks>`         → hex of `container cs` (signature byte + `serialize cs`)
     `exp <chunks>`         → hex of `expand cs`
-    `case <chunks>`        → `<valid 0|1> <container hex> <expand hex> <dec result of the container>`
+    `case <e> <chunks>`    → `<valid 0|1><decodable 0|1> <container hex> <len:fnv64 of expand, or - when e=0> <ok:len:fnv64 | err:… | panic:… of dec container>`
+                             (`expand` is the specification's byte-by-byte definition, quadratic: asked for on small or sampled cases)
     `dir <hex>`            → `ok <cp> <refs> <mods>` | `err:<class>` | `panic`    model of the `dir` stream walk
     `proj <dir|?> <streams>` → `ok <cp> <refs> <modules>` | …                     model of `VbaProject::from_cfb`
     `cps`                  → the code pages the model accepts, comma separated
@@ -43,10 +45,28 @@ def parseChunk (s : String) : Option Chunk :=
 def parseChunks (s : String) : Option (List Chunk) :=
   if s = "-" then some [] else (s.splitOn "/").mapM parseChunk
 
+def slug (s : String) : String := String.ofList (s.toList.map fun c => if c = ' ' then '_' else c)
+
+def tagOf {α : Type} (r : Res α) : String :=
+  match r with
+  | .panic m => "panic:" ++ slug m
+  | r => r.tag
+
 def showRes (r : Res Bytes) : String :=
   match r with
   | .ok b => "ok " ++ hexOrDash b
-  | r => r.tag
+  | r => tagOf r
+
+def fnv64 (bs : Bytes) : UInt64 :=
+  bs.foldl (fun h b => (h ^^^ b.toUInt64) * 0x100000001b3) 0xcbf29ce484222325
+
+/-- `len:fnv64` digest of a byte string -/
+def digest (bs : Bytes) : String := s!"{bs.length}:{fnv64 bs}"
+
+def showResDigest (r : Res Bytes) : String :=
+  match r with
+  | .ok b => "ok:" ++ digest b
+  | r => tagOf r
 
 def showRef (r : Ref) : String := s!"{hexOrDash r.name}:{hexOrDash r.description}:{hexOrDash r.path}"
 def showMod (m : Module) : String := s!"{hexOrDash m.name}:{hexOrDash m.streamName}:{m.textOffset}"
@@ -66,21 +86,26 @@ def handle (line : String) : String :=
   | ["dec", h] => match bytesOfHex h with
     | some b => showRes (decompress b)
     | none => "bad-request"
+  | ["decd", h] => match bytesOfHex h with
+    | some b => showResDigest (decompress b)
+    | none => "bad-request"
   | ["ser", d] => match parseChunks d with
     | some cs => hexOrDash (container cs)
     | none => "bad-request"
   | ["exp", d] => match parseChunks d with
     | some cs => hexOrDash (expand cs)
     | none => "bad-request"
-  | ["case", d] => match parseChunks d with
+  | ["case", withExp, d] => match parseChunks d with
     | some cs =>
       let c := container cs
-      s!"{if validChunks cs then 1 else 0} {hexOrDash c} {hexOrDash (expand cs)} {showRes (decompress c)}"
+      let dcd := cs.all decodableChunk
+      let e := if withExp = "1" then digest (expand cs) else "-"
+      s!"{if validChunks cs then 1 else 0}{if dcd then 1 else 0} {hexOrDash c} {e} {showResDigest (decompress c)}"
     | none => "bad-request"
   | ["dir", h] => match bytesOfHex h with
     | some b => match dirWalk b with
       | .ok (cp, refs, mods) => s!"ok {cp} {showList (refs.map showRef)} {showList (mods.map showMod)}"
-      | r => r.tag
+      | r => tagOf r
     | none => "bad-request"
   | ["proj", d, ss] =>
     let dir := if d = "?" then some none else (bytesOfHex d).map some
@@ -89,7 +114,7 @@ def handle (line : String) : String :=
       match project dir (fun k => (streams.find? (·.1 == k)).map (·.2)) with
       | .ok (cp, refs, ms) =>
         s!"ok {cp} {showList (refs.map showRef)} {showList (ms.map fun m => s!"{hexOrDash m.1}:{hexOrDash m.2}")}"
-      | r => r.tag
+      | r => tagOf r
     | _, _ => "bad-request"
   | ["cps"] => ",".intercalate (knownCodepages.map toString)
   | _ => "bad-request"
